@@ -6,6 +6,8 @@ API; what arrives at stdout, stderr and the log file is validated by TLC against
 install / restore / foreign-handler installation are validated against the handler-slot machine of the same module."""
 import json
 import os
+import re
+import os
 import random
 import subprocess
 import time
@@ -110,18 +112,27 @@ class IniScenario:
             self.keys_text["platform_std_log"] = "true"
         self.file = r.random() < 0.6
         self.logpath = self.dir / r.choice(["app.log", "out/app.log" if False else "my.log"])
+        # the file keys with their documented defaults; a log file of an earlier day may be there already
+        self.fopt = {"L": 1048576, "N": 5, "startup": True, "daily": False, "gz": False, "old": []}
         if self.file:
             self.keys_text["path"] = str(self.logpath)
+            if r.random() < 0.6:
+                self.fopt["L"] = r.choice([0, 150, 150, 400, 100000, 1048576])
+                self.keys_text["max_file_size"] = str(self.fopt["L"])
+            if r.random() < 0.6:
+                self.fopt["N"] = r.choice([0, 1, 2, 3, 5])
+                self.keys_text["max_file_count"] = str(self.fopt["N"])
+            if r.random() < 0.6:
+                self.fopt["startup"] = r.random() < 0.5
+                self.keys_text["rotate_on_startup"] = "true" if self.fopt["startup"] else "false"
             if r.random() < 0.5:
-                self.keys_text["max_file_size"] = str(r.choice([0, 100000, 1048576]))
+                self.fopt["daily"] = r.random() < 0.6
+                self.keys_text["rotate_daily"] = "true" if self.fopt["daily"] else "false"
             if r.random() < 0.5:
-                self.keys_text["max_file_count"] = str(r.choice([0, 3, 5]))
-            if r.random() < 0.5:
-                self.keys_text["rotate_on_startup"] = r.choice(["true", "false"])
-            if r.random() < 0.4:
-                self.keys_text["rotate_daily"] = r.choice(["true", "false"])
-            if r.random() < 0.4:
-                self.keys_text["compress_old_files"] = r.choice(["true", "false"])
+                self.fopt["gz"] = r.random() < 0.6
+                self.keys_text["compress_old_files"] = "true" if self.fopt["gz"] else "false"
+            if r.random() < 0.6:
+                self.fopt["old"] = [f"old line {i + 1} of an earlier day" for i in range(r.randint(1, 3))]
         self.async_ = r.random() < 0.4
         if self.async_:
             self.keys_text["async"] = "true"
@@ -133,6 +144,11 @@ class IniScenario:
 
     def write(self):
         self.dir.mkdir(parents=True, exist_ok=True)
+        if self.file and self.fopt["old"]:
+            self.logpath.parent.mkdir(parents=True, exist_ok=True)
+            self.logpath.write_text("".join(l + "\n" for l in self.fopt["old"]))
+            t = time.time() - 2 * 86400
+            os.utime(self.logpath, (t, t))
         lines = [f"[{self.group}]"]
         for k, v in self.keys_text.items():
             lines.append(f"{k}={ini_quote(v)}")
@@ -144,7 +160,8 @@ class IniScenario:
 
     def keys(self):
         return {"rules": self.rules, "rx": self.rx, "fmt": "pattern" if self.pattern else "pretty", "stdout": self.stdout,
-                "stderr": self.stderr, "platform": self.platform, "file": self.file}
+                "stderr": self.stderr, "platform": self.platform, "file": self.file,
+                "fopt": dict(self.fopt, old=[u(l) for l in self.fopt["old"]])}
 
     def describe(self):
         return {"id": self.id, "ini": self.keys_text, "group": self.group, "messages": self.msgs}
@@ -182,14 +199,47 @@ def lines_of(data):
     return [u(x) for x in ls]
 
 
+ROTATED = re.compile(r"^(?P<base>.+)\.(?P<date>\d{4}-\d{2}-\d{2})\.(?P<idx>\d+)(?P<suf>\.[^.]+)?$")
+
+
+def read_rotated(scn):
+    """the rotated files next to the log file, in (date, index) order"""
+    import datetime
+    import gzip
+    lp = scn.logpath
+    if not lp.parent.exists():
+        return []
+    today = datetime.datetime.utcnow().date()
+    stem, suf = lp.stem, lp.suffix
+    found = []
+    for f in lp.parent.iterdir():
+        name = f.name
+        gz = name.endswith(".gz")
+        core = name[:-3] if gz else name
+        m = ROTATED.match(core)
+        if not m or m.group("base") != stem or (m.group("suf") or "") != suf:
+            continue
+        data = f.read_bytes()
+        if gz:
+            data = gzip.decompress(data)
+        d = datetime.date.fromisoformat(m.group("date"))
+        found.append(((m.group("date"), int(m.group("idx"))),
+                      {"gz": gz, "old": (today - d).days >= 1, "lines": lines_of(data), "bytes": len(data)}))
+    return [r for _, r in sorted(found, key=lambda x: x[0])]
+
+
 def run_child(bdir, mode, scn):
     p = subprocess.run([str(bdir / "drv_config"), mode, str(scn.write())], capture_output=True, timeout=60,
                        env={"LC_ALL": "C.UTF-8", "TZ": "UTC", "PATH": "/usr/bin:/bin", "ASAN_OPTIONS": "detect_leaks=0"})
     file_lines = []
+    nbytes = 0
     exists = scn.logpath.exists()
     if exists:
-        file_lines = lines_of(scn.logpath.read_bytes())
-    out = {"stdout": lines_of(p.stdout), "stderr": lines_of(p.stderr), "file": file_lines, "fileExists": exists}
+        data = scn.logpath.read_bytes()
+        file_lines = lines_of(data)
+        nbytes = len(data)
+    out = {"stdout": lines_of(p.stdout), "stderr": lines_of(p.stderr), "file": file_lines, "fileExists": exists,
+           "fileBytes": nbytes, "rot": read_rotated(scn) if mode == "ini" else []}
     subprocess.run(["rm", "-rf", str(scn.dir)])
     return out, p.returncode
 
